@@ -4,8 +4,15 @@ Space: every DFS-ordered tree with <=N bodies x joint-kind assignment x constrai
   {none, limit (joint ranges violated by the state), equality (connect to the world + joint equality), contact (bodies
    resting in a plane, pyramidal), contact_elliptic, all}
   x integrator {Euler (with implicit damping), implicitfast} x INVDISCRETE {off, on};
-  every model carries armature, linear/polynomial damping, velocity-dependent actuators (affine bias, affine gain, filter
-  dynamics), non-zero ctrl/act, qfrc_applied and xfrc_applied; two states as a 2-world batch.
+  every model carries armature, linear+polynomial damping on every joint, velocity-dependent actuators (affine bias, affine gain,
+  filter dynamics), non-zero ctrl/act, qfrc_applied and xfrc_applied; two states as a 2-world batch.
+  Damping-specification family (constraint set none, same integrators x INVDISCRETE): the damping of every joint and of every
+  tendon is drawn independently from the alphabet {none, linear only, polynomial only, linear+polynomial}
+    A  one body: dof-carrying joint kinds x joint spec x spec of one spatial tendon (world -> body),
+    B  two bodies, both trees, kinds {hinge, slide, ball}^2 (thorough: all dof-carrying kinds): spec of joint 1 x spec of joint 2,
+    C  two bodies, both trees, kinds {hinge, ball}^2, joint specs (polynomial, linear), two spatial tendons (world -> b1,
+       b1 -> b2): spec of tendon 1 x spec of tendon 2;
+  four states as a 4-world batch: the two grid states and the same two with qvel negated (velocities of both signs on every dof).
 Procedure
   INVDISCRETE off: forward(); inverse() on the same Data.
   INVDISCRETE on : step() on Data A gives qvel'; on Data B (same state) forward(), then qacc := (qvel' - qvel)/h, inverse().
@@ -27,11 +34,15 @@ RULE = (
   "enumerate trees(<=N) x joint kinds x constraint sets x {Euler, implicitfast} x INVDISCRETE {off,on}; each scenario runs the "
   "forward/inverse round trip on two states (2-world batch); non-trivial = nv>0, the expected force is non-zero, the requested "
   "constraint kinds are active (nefc>0 / ncon>0) in at least one world, and for INVDISCRETE the discrete acceleration differs from "
-  "the continuous one; distinct = canonical hash of the spec"
+  "the continuous one; distinct = canonical hash of the spec. Damping family: (A) 1 body x dof kinds x joint damping spec x "
+  "tendon damping spec, (B) 2 bodies x trees x kinds x joint spec^2, (C) 2 bodies x trees x tendon spec^2, specs from {none, "
+  "linear, polynomial, linear+polynomial}, x integrators x INVDISCRETE, 4-world batch = 2 grid states x qvel sign {+,-}"
 )
 BOUNDS = {
-  "quick": "N<=2: all joint kinds x 6 constraint sets; N=3: kinds {weld,hinge,slide,ball,free} x {none, all}; x 2 integrators x INVDISCRETE off/on",
-  "thorough": "N<=3: all joint kinds x 6 constraint sets x 2 integrators x INVDISCRETE off/on",
+  "quick": "N<=2: all joint kinds x 6 constraint sets; N=3: kinds {weld,hinge,slide,ball,free} x {none, all}; x 2 integrators x INVDISCRETE off/on; "
+  "damping family A: 5 dof kinds x 4 x 4, B: 2 trees x {hinge,slide,ball}^2 x 4^2, C: 2 trees x {hinge,ball}^2 x 4^2 tendon specs",
+  "thorough": "N<=3: all joint kinds x 6 constraint sets x 2 integrators x INVDISCRETE off/on; damping family A: 5 dof kinds x 4 x 4, "
+  "B: 2 trees x all dof kinds x 4^2, C: 2 trees x {hinge,ball}^2 x 4^2 tendon specs",
 }
 ASSUMPTIONS = [
   "self-consistency of MJWarp (forward vs inverse); MuJoCo is used only for J^T xfrc_applied (mj_applyFT, float64)",
@@ -50,6 +61,38 @@ _REDUCED = ("weld", "hinge", "slide", "ball", "free")
 H = 0.01
 
 
+DAMP_SPECS = ("none", "lin", "poly", "linpoly")
+_DOF_KINDS = ("hinge", "slide", "ball", "free", "hingeslide")
+# the two grid states, then the same with qvel negated: every dof sees velocities of both signs
+_STATES4 = [[1, 1], [2, 1], [1, -1], [2, -1]]
+
+
+def _damping_family(tier):
+  """Specs (without integrator / INVDISCRETE) of the damping-specification family, see the module docstring."""
+  out = []
+  specs = DAMP_SPECS
+  # A: one body, one spatial tendon
+  for k in _DOF_KINDS:
+    for jd in specs:
+      for td in specs:
+        out.append(dict(parents=[0], joints=[k], jdamp=[jd], tdamp=[td]))
+  trees2 = [list(p) for p in space.trees(2)]
+  # B: two bodies, no tendon, joint spec x joint spec
+  kinds_b = ("hinge", "slide", "ball") if tier == "quick" else _DOF_KINDS
+  for parents in trees2:
+    for joints in space.joint_assignments(parents, kinds=kinds_b):
+      for jd1 in specs:
+        for jd2 in specs:
+          out.append(dict(parents=parents, joints=list(joints), jdamp=[jd1, jd2], tdamp=[]))
+  # C: two bodies, two tendons, tendon spec x tendon spec
+  for parents in trees2:
+    for joints in space.joint_assignments(parents, kinds=("hinge", "ball")):
+      for td1 in specs:
+        for td2 in specs:
+          out.append(dict(parents=parents, joints=list(joints), jdamp=["poly", "lin"], tdamp=[td1, td2]))
+  return out
+
+
 def scenarios(tier, seed):
   v = seed % 4
   specs = []
@@ -59,33 +102,50 @@ def scenarios(tier, seed):
       for parents in space.trees(n):
         for joints in space.joint_assignments(parents, kinds=kinds):
           for cset in cons:
-            specs.append((tuple(parents), tuple(joints), cset))
+            specs.append(dict(parents=list(parents), joints=list(joints), cons=cset))
 
+  def add_damping():
+    for sp in _damping_family(tier):
+      specs.append(dict(sp, cons="none", states=_STATES4))
+
+  # simplest first: the damping family (<= 2 bodies, no constraint; ~5x cheaper per scenario than a constrained model) runs
+  # right after the one-body models, so that a run cut short by the time budget still covers it
+  add(1, 1, CONS)
+  add_damping()
+  add(2, 2, CONS)
   if tier == "quick":
-    add(1, 2, CONS)
     add(3, 3, ("none", "all"), kinds=_REDUCED)
   else:
-    add(1, 3, CONS)
+    add(3, 3, CONS)
   out = []
-  for parents, joints, cset in specs:
+  for sp in specs:
     for integ in ("Euler", "implicitfast"):
       for disc in (0, 1):
-        out.append(dict(parents=list(parents), joints=list(joints), cons=cset, integ=integ, invdiscrete=disc, variant=v))
+        out.append(dict(sp, integ=integ, invdiscrete=disc, variant=v))
   return out
 
 
 # ------------------------------------------------------------------------------- model
 
 
-def model_xml(parents, joints, cons, integ, disc, v):
+def _damp_value(spec, v, i):
+  """Value of a damping="..." attribute (linear coefficient, then the polynomial ones) for a spec of DAMP_SPECS; None = no attribute."""
+  lin, p1, p2 = _c02._DPOLY[v].split()
+  lin = f"{float(lin) + 0.1 * i:.3g}"
+  return {"none": None, "lin": lin, "poly": f"0 {p1} {p2}", "linpoly": f"{lin} {p1} {p2}"}[spec]
+
+
+def model_xml(parents, joints, cons, integ, disc, v, jdamp=None, tdamp=None):
   n = len(parents)
   limit = cons in ("limit", "all")
   equality = cons in ("equality", "all")
   contact = cons in ("contact", "contact_elliptic", "all")
-  base = _c02._joint_attrs(("armature", "dampingpoly"), v)
+  base = _c02._joint_attrs(("armature", "dampingpoly") if jdamp is None else ("armature",), v)
 
   def ja(i, kind):
     a = base(i, kind)
+    if jdamp is not None and _damp_value(jdamp[i - 1], v, i) is not None:
+      a += f' damping="{_damp_value(jdamp[i - 1], v, i)}"'
     if limit and kind in ("hinge", "slide", "hingeslide"):
       a += ' limited="true" range="-0.2 0.15"'
     elif limit and kind == "ball":
@@ -110,10 +170,22 @@ def model_xml(parents, joints, cons, integ, disc, v):
   world = ""
   if contact:
     world = '<geom name="floor" type="plane" size="3 3 0.1" pos="0 0 0.05" quat="0.9990482 0.0308436 -0.0308436 0" margin="0.12"/>'
+  if tdamp:
+    # spatial tendons (work with every joint kind): world site -> s1, s1 -> s2
+    world += '<site name="sw" pos="0.05 -0.4 0.6" size="0.01"/>'
+    ends = [("sw", "s1"), ("s1", "s2")]
+    tens = ""
+    for t, spec in enumerate(tdamp):
+      dv = _damp_value(spec, (v + 2) % 4, t)
+      da = f' damping="{dv}"' if dv is not None else ""
+      tens += f'<spatial name="t{t}"{da}><site site="{ends[t][0]}"/><site site="{ends[t][1]}"/></spatial>'
+    tendon_sec = f"<tendon>{tens}</tendon>"
+  else:
+    tendon_sec = ""
   flags = '<flag invdiscrete="enable"/>' if disc else ""
   cone = ' cone="elliptic"' if cons == "contact_elliptic" else ""
   opt = f'<option timestep="{H}" integrator="{integ}"{cone}>{flags}</option>'
-  sections = (f"<actuator>{acts}</actuator>" if acts else "") + (f"<equality>{eq}</equality>" if eq else "")
+  sections = tendon_sec + (f"<actuator>{acts}</actuator>" if acts else "") + (f"<equality>{eq}</equality>" if eq else "")
   # soft constraints (time constant 0.08 instead of 0.02): the grid states violate limits/equalities/contacts by O(0.3), which
   # with the default stiffness gives row forces O(1e4) that cancel to O(10) -- ill conditioned for no benefit
   comp = (
@@ -124,8 +196,9 @@ def model_xml(parents, joints, cons, integ, disc, v):
   )
 
 
-def _state(mjm, joints, v, which):
+def _state(mjm, joints, v, which, sign=1):
   qpos, qvel = space.state_grid(joints, v, which)
+  qvel = [sign * x for x in qvel]
   ctrl, act = _c27._inputs(mjm, v, which)
   _, _, qa, xf = _c02._state(mjm, joints, v, which)
   return np.array(qpos), np.array(qvel), ctrl, act, qa, xf
@@ -149,18 +222,19 @@ def execute(scn):
   import warp as wp
 
   v, integ, disc, cons = scn["variant"], scn["integ"], scn["invdiscrete"], scn["cons"]
-  xml = model_xml(scn["parents"], scn["joints"], cons, integ, disc, v)
+  xml = model_xml(scn["parents"], scn["joints"], cons, integ, disc, v, jdamp=scn.get("jdamp"), tdamp=scn.get("tdamp"))
+  states = scn.get("states") or [[1, 1], [2, 1]]  # (grid state, qvel sign) per world
   mjm, err = util.try_load(xml)
   if mjm is None:
     return dict(ok=True, nontrivial=False, outcome="rejected_by_compiler", info=err, key=util.sha(scn))
-  nv, NW = mjm.nv, 2
+  nv, NW = mjm.nv, len(states)
   c = util.Cmp(prefix=f"{integ}:disc={disc}:")
   m = mjw.put_model(mjm)
   dB = mjw.make_data(mjm, nworld=NW)
   dA = mjw.make_data(mjm, nworld=NW) if disc else None
   refs = []
-  for w, which in enumerate((1, 2)):
-    qpos, qvel, ctrl, act, qa, xf = _state(mjm, scn["joints"], v, which)
+  for w, (which, sign) in enumerate(states):
+    qpos, qvel, ctrl, act, qa, xf = _state(mjm, scn["joints"], v, which, sign)
     mjd = util.mj_data(mjm, qpos=qpos, qvel=qvel, ctrl=ctrl, act=act if mjm.na else None, qfrc_applied=qa, xfrc_applied=xf)
     mujoco.mj_forward(mjm, mjd)
     refs.append(mjd)
@@ -215,6 +289,8 @@ def execute(scn):
     atol = 2.0 * resid + 1.2e-7 * amp
     pre = f"w{w}:"
     ckey = cons
+    if "jdamp" in scn:  # damping family: name the damping specs present on joints / tendons
+      ckey += ":jdamp=" + "+".join(sorted(set(scn["jdamp"]))) + ":tdamp=" + ("+".join(sorted(set(scn["tdamp"]))) or "-")
     c.close(pre + "qfrc_inverse", inv["qfrc_inverse"][w], expected, "f32dyn", scale=scale, atol=atol, vkey=f"qfrc_inverse:{ckey}")
     c.close(pre + "qfrc_constraint", inv["qfrc_constraint"][w], fwd["qfrc_constraint"][w], "f32dyn", scale=scale, atol=atol, vkey=f"qfrc_constraint:{ckey}")
     c.bits(pre + "qacc_untouched", inv["qacc"][w], qacc_in[w], vkey="qacc_modified_by_inverse")
@@ -234,5 +310,8 @@ def execute(scn):
   states_ok = sum(1 for g in degenerate if not g) - unconverged
   nontrivial = nv > 0 and states_ok > 0 and expected_nz and active_any and (disc_differs or not disc)
   outcome = "degenerate" if all(degenerate) else ("solver_unconverged" if states_ok <= 0 else "ok")
+  if "jdamp" in scn:
+    # a damped dof that never moves would make the damping spec irrelevant
+    nontrivial = nontrivial and bool(np.any(np.abs(fwd["qvel"]) > 0))
   info = dict(nv=int(nv), nefc=[int(x) for x in nefc], ncon=[int(x) for x in ncon_world], resid=float(f"{maxres:.3g}"), maxrel=float(f"{c.maxrel:.3g}"), checked=c.nchecked)
   return c.result(nontrivial=nontrivial, key=util.sha(scn), outcome=outcome, info=info)
